@@ -127,7 +127,7 @@ def gen_core(rng, **over):
     return sc
 
 
-def gen_chain(rng, p_timeout=0.5, p_await=0.8, p_parallel=0.0, nb=(1, 2), maxh=(50, 50, None, 3), p_unrelated=0.3, p_raise=0.05, **_):
+def gen_chain(rng, p_timeout=0.5, p_await=0.8, p_parallel=0.0, nb=(1, 2), maxh=(50, 50, None, 3), p_unrelated=0.3, p_raise=0.05, min_depth=2, **_):
     """nested chains A -> B -> C -> D: each level's handler dispatches the next level (to any bus) and mostly
     awaits it; every level may have a second handler; timeouts on random levels (then serial buses only)"""
     n = rng.randint(*nb)
@@ -135,7 +135,7 @@ def gen_chain(rng, p_timeout=0.5, p_await=0.8, p_parallel=0.0, nb=(1, 2), maxh=(
     sc = {'buses': [{'parallel': (not with_to) and rng.random() < p_parallel, 'maxh': rng.choice(maxh), 'wal': False} for _ in range(n)],
           'types': {}, 'handlers': [], 'tasks': []}
     order = ['A', 'B', 'C', 'D']
-    depth = rng.randint(2, 4)
+    depth = rng.randint(min_depth, 4)
     for t in order:
         sc['types'][t] = {'timeout': rng.choice(TIMEOUTS) if (with_to and rng.random() < 0.5) else None}
     home = {t: rng.randrange(n) for t in order}
